@@ -251,6 +251,10 @@ void Executor::exec_op(int idx, const Op& op, TaskCtx& t) {
   else if (n == "query") op_query(op, t);
   else if (n == "file") op_file(op, t);
   else op_modify(op, t);
+  // differential twin of the C09 oracles (main.cpp): the same history with scaling switched off
+  if (plan_.cfgi("noscale", 0) && !op.obj.empty()) { Obj* o = obj(op.obj); if (o && o->s) {
+    if (o->s->getInt(P::i("scaler")) != 0) { o->s->setInt(P::i("scaler"), 0); o->pm.i[P::i("scaler")] = 0; }
+    if (o->s->getBool(P::b("persistentscaling"))) { o->s->setBool(P::b("persistentscaling"), false); o->pm.b[P::b("persistentscaling")] = false; } } }
 }
 
 // ------------------------------------------------------------------ simple ops
